@@ -353,6 +353,11 @@ func main() {
 			"{backslash,n,t,x,LF,\"} through unescape and inline+unescape; all 37 loadable environment/hidden/rewritten/plain partitions of a 3-field " +
 			"schema x 6 chain shapes x 11 lengths x 3 positions; the 15x9 EventTime grid. Everything else is sampled")
 	}
+	// only has something to read in a -race build (VERIF_RACE=1): serializers are per worker, nothing is shared
+	c.JudgeRaces([]string{"output/fluentdforward/eventserializer.go", "output/fluentdforward/eventtime.go",
+		"output/fastmsgpack/encodecollections.go", "output/fastmsgpack/encodeexttype.go", "output/fastmsgpack/common.go",
+		"rewrite/rinline/rinline.go", "rewrite/runescape/runescape.go", "rewrite/rcopy/rcopy.go",
+		"util/stringunescape/unescape.go", "base/bsupport/unescape.go"})
 	c.Set("workers", workers)
 	c.Set("groups", len(groups))
 	c.Require("serializations", int64(c.N(150000, 2000000)))
